@@ -20,6 +20,8 @@ import (
 
 	"pgregory.net/rapid"
 
+	"github.com/evanoberholster/imagemeta"
+	"github.com/evanoberholster/imagemeta/exif2"
 	"github.com/evanoberholster/imagemeta/imagetype"
 	"github.com/evanoberholster/imagemeta/meta"
 	"github.com/evanoberholster/imagemeta/meta/utils"
@@ -234,7 +236,68 @@ func genCase(rt *rapid.T) Case {
 
 var chk = pbt.Check[Case]{Name: "tiff-header-search", Gen: genCase, Eval: eval}
 
-func init() { pbt.Register(chk) }
+// Far: the entry points that search for the header themselves (exif2.Parse, imagemeta.DecodeTiff / DecodeHeif) must find a
+// header that lies far into the stream as well: "whatever bytes precede it".
+type Far struct {
+	Prefix int    `json:"prefix_len"`
+	Fill   byte   `json:"fill"`
+	MM     bool   `json:"mm"`
+	Width  uint16 `json:"image_width"`
+	Entry  string `json:"entry"`
+}
+
+func evalFar(c Far) (f *pbt.Fail) {
+	defer func() {
+		if r := recover(); r != nil {
+			f = pbt.Failf("far-panic", "%s panicked: %v", c.Entry, r)
+		}
+	}()
+	bo := binary.ByteOrder(binary.LittleEndian)
+	blk := []byte("II*\x00\x08\x00\x00\x00")
+	if c.MM {
+		bo = binary.BigEndian
+		blk = []byte("MM\x00*\x00\x00\x00\x08")
+	}
+	ent := make([]byte, 2+12+4)
+	bo.PutUint16(ent, 1)
+	bo.PutUint16(ent[2:], 0x0100)
+	bo.PutUint16(ent[4:], 3)
+	bo.PutUint32(ent[6:], 1)
+	bo.PutUint16(ent[10:], c.Width)
+	pre := bytes.Repeat([]byte{c.Fill}, c.Prefix)
+	if c.Entry != "exif2.Parse" && c.Prefix >= 24 {
+		copy(pre, "\x00\x00\x00\x18ftypheic\x00\x00\x00\x00mif1heic") // these entry points identify the image type first
+	}
+	b := append(pre, append(blk, ent...)...)
+	b = append(b, make([]byte, 64)...)
+	var e exif2.Exif
+	var err error
+	switch c.Entry {
+	case "exif2.Parse":
+		e, err = exif2.Parse(bytes.NewReader(b))
+	case "DecodeHeif":
+		e, err = imagemeta.DecodeHeif(bytes.NewReader(b))
+	default:
+		e, err = imagemeta.DecodeTiff(bytes.NewReader(b))
+	}
+	if err != nil || e.ImageWidth != c.Width {
+		return pbt.Failf("far:"+c.Entry, "%s on a stream whose TIFF header lies at offset %d: ImageWidth = %d, err %v; the block says %d", c.Entry, c.Prefix, e.ImageWidth, err, c.Width)
+	}
+	return nil
+}
+
+var chkFar = pbt.Check[Far]{Name: "tiff-header-search-far", Eval: evalFar, Gen: func(rt *rapid.T) Far {
+	c := Far{Prefix: rapid.SampledFrom([]int{0, 24, 4095, 4096, 65503, 65504, 65505, 65535, 65536, 65537, 70000, 131072, 1 << 20, 3 << 20}).Draw(rt, "prefix") + rapid.IntRange(0, 9).Draw(rt, "d"),
+		Fill: rapid.SampledFrom([]byte{0x81, 0x00, 0xff, 'x'}).Draw(rt, "fill"), MM: rapid.Bool().Draw(rt, "mm"), Width: uint16(rapid.IntRange(1, 65535).Draw(rt, "width")),
+		Entry: rapid.SampledFrom([]string{"exif2.Parse", "DecodeTiff", "DecodeHeif"}).Draw(rt, "entry")}
+	if c.Entry != "exif2.Parse" && c.Prefix > 0 && c.Prefix < 24 {
+		c.Prefix = 0 // (these entry points identify the image type from the first 24 bytes: a TIFF at offset 0, or an ftyp box)
+	}
+	rec.Case(c.Prefix > 4096, ev.HashS("far", fmt.Sprint(c)), "far-prefix>64KiB:"+fmt.Sprint(c.Prefix > 65536))
+	return c
+}}
+
+func init() { pbt.Register(chk); pbt.Register(chkFar) }
 
 func TestProp(t *testing.T) {
 	defer rec.MustWrite()
@@ -244,6 +307,7 @@ func TestProp(t *testing.T) {
 		"random: prefixes of 0..8 KiB with lengths around 32/64/4096/8192, arbitrary bytes with sprinkled (partial) signatures, signature-free streams, signatures 24..40 bytes before the end; 8 reader kinds. "+
 		"oracle: naive first-index scan written in the check; offset, byte order, first-IFD offset; caller's bufio.Reader left at the header; no signature => meta.ErrNoExif. "+
 		"non-trivial = the bytes before the reported header (or the whole signature-free stream) contain >= 2 leading signature bytes; distinct by (stream, reader)", L))
+	rec.Rule("far headers: a one-entry TIFF block behind 0 .. 3 MiB of signature-free filler (lengths on and around 4 KiB, 64 KiB, 128 KiB, 1 MiB) is decoded through exif2.Parse, DecodeTiff and DecodeHeif, which run the search themselves: the block's ImageWidth must come back")
 	rec.Assume("a signature followed by fewer than 28 bytes is outside the property's precondition: nothing is asserted about such streams")
 	rec.Assume("caller-supplied bufio.Readers have size >= 32 (the search peeks 32 bytes)")
 	pbt.RegressDir(t, rec)
@@ -321,7 +385,10 @@ func TestProp(t *testing.T) {
 	if t.Failed() {
 		return
 	}
-	pbt.Run(t, rec, chk, rec.Env.Pick(6000, 60000), 1)
+	if !pbt.Run(t, rec, chk, rec.Env.Pick(6000, 60000), 1) {
+		return
+	}
+	pbt.Run(t, rec, chkFar, rec.Env.Pick(150, 1500), 2)
 }
 
 func TestReplay(t *testing.T) { pbt.Replay(t, rec) }
